@@ -12,8 +12,8 @@ CONSTANTS
   PeerH = 5
   BugClearAlways = FALSE
   BugKeepOld = FALSE
-  QuirkLenDrift = TRUE
-  QuirkNoDiscardRecheck = TRUE
+  QuirkLenDrift = FALSE
+  QuirkNoDiscardRecheck = FALSE
   Depth = 1000
   WitnessKind = "starved"
 VIEW view
